@@ -18,7 +18,7 @@ Extraction "model.ml"
   enc ser dec_slice logical has_ty wf mem_zst default_of cmp_val
   slice_reader try_from_slice try_from_reader object_length
   max_size max_size_at validate is_zero_size max_unbounded
-  ArrayGuard.deserialize
+  ArrayGuard.deserialize as_written bug_incr_before_write bug_no_reset
   check violations derive_ty documented_sem has_variant_attrs implicit_overflow type_dependent_discr discrs_canonical
   rust_discrs derive_discrs tag_eval canonical parse tokens_of
   decr try_from_reader_count to_writer to_writer_cs sw_write_all fw_write_all vw_write_all run_ops observable io_std io_shim world0
@@ -27,4 +27,4 @@ Extraction "model.ml"
   ty_container container_to_val val_to_container try_to_vec_with_schema try_from_slice_with_schema
   dec_cost dec_trace fam wire_pos cautious
   bounds_of documented_bounds render render_pred uses occurs type_params
-  inner_struct schema_declaration_params schema_declaration.
+  inner_struct schema_declaration_params schema_declaration inner_scope_ok.
